@@ -533,7 +533,7 @@ impl Prop for C03 {
                 }
                 d.bytes
             } else if i % 8 == 1 {
-                gen::guard_soup(&mut ctx.rng)
+                if ctx.rng.bool() { gen::guard_soup(&mut ctx.rng) } else { gen::guard_walk(&mut ctx.rng) }
             } else {
                 let mut v = gen::soup(&mut ctx.rng, 24, SoupKind::HtmlOnly, false);
                 if ctx.rng.chance(1, 12) {
